@@ -159,6 +159,13 @@ func (m *Machine) external(st *State, fr *Frame, instr ssa.Instruction, fn *ssa.
 		}
 		return rets
 	}
+	switch name {
+	case "errors.Is", "errors.Unwrap":
+		// walks the chain through the Unwrap/Is methods of the error types; those of this package are
+		// side-effect free (their contracts are discharged under C19). Result unconstrained.
+		use("no effect on library state (the package's Unwrap/Is methods are pure); result unconstrained")
+		return m.freshRets(st, sig, "purelib")
+	}
 	if i := strings.Index(name, "."); i > 0 {
 		switch strings.TrimPrefix(strings.TrimPrefix(name[:i], "(*"), "(") {
 		case "strings", "bytes", "strconv", "unicode", "unicode/utf8", "unicode/utf16", "math", "math/bits", "path", "path/filepath", "time.Time", "time.Duration", "time":
